@@ -22,7 +22,7 @@ KIND = {"int": "i", "float": "f", "complex": "c", "bool": "b", "str": "s"}
 # sequences exist in the grammar), comment / bracket / operator characters, other line-boundary characters, and
 # look-alikes of other literals and of declared names
 STRINGS = ["caf\u00e9 \u03c0/2", "\U0001f642", "a\\b\\n", "C:\\temp\\new", "ends with \\", "\\x41\\u00e9", "a#b", "# not a comment", "True", "1.5", "1+2j", "n0", "pi", "q0", "{a}", "[1, 2]", "G(1) | 0",
-           "tab\there", " lead and trail ", "a\x0bb\x0cc", "a\x85b\u2028c", "'single'", "%s %d {}"]
+           "tab\there", " lead and trail ", "a\x0bb\x0cc", "a\x85b\u2028c", "'single'", "%s %d {}", "1,2,3", "a,b", "x,", ",", "0:3", "a;b", "k=v,l=[1,2]"]
 
 SCALARS = {
     "int": [("9007199254740993", 9007199254740993), ("-9007199254740993", -9007199254740993), ("2**60+1", 2 ** 60 + 1), ("9223372036854775807", 2 ** 63 - 1), ("big", 9007199254740993), ("big-1", 9007199254740992),
@@ -63,6 +63,9 @@ def scalar_case(c):
     return None
 
 
+# entries that evaluate to exactly zero, in every way of writing one (a literal, a signed literal, a difference, a product,
+# a declared variable that holds 0): position k of an array in mode "zeros" is zero unless k % 3 == 1
+ZERO_FORMS = {"int": ["0", "2-2", "-0", "0*7", "n0-4"], "float": ["0.0", "0", "-0.0", "2.5-x0", "0e0"], "complex": ["0j", "0", "0.0+0j", "z0-z0", "-0j"]}
 NARROW = {"int": lambda k: str(k + 1), "float": lambda k: str(k + 1), "complex": lambda k: str(k + 1) if k % 2 else "%d.5" % (k + 1)}   # literals narrower than the declared type
 PYN = {"int": lambda k: k + 1, "float": lambda k: float(k + 1), "complex": lambda k: complex(k + 1) if k % 2 else complex(k + 1.5)}
 
@@ -70,6 +73,9 @@ PYN = {"int": lambda k: k + 1, "float": lambda k: float(k + 1), "complex": lambd
 def array_text(t, r, c, ps, shape, neg=False):
     rows = []
     for i in range(r):
+        if neg == "zeros":
+            rows.append(", ".join(("{u%d}" % (i * c + j)) if (i * c + j) in ps else (VALS[t](i * c + j) if (i * c + j) % 3 == 1 else ZERO_FORMS[t][(i * c + j) % len(ZERO_FORMS[t])]) for j in range(c)))
+            continue
         if neg == "narrow":
             rows.append(", ".join(("{u%d}" % (i * c + j)) if (i * c + j) in ps else NARROW[t](i * c + j) for j in range(c)))
             continue
@@ -82,7 +88,7 @@ def array_case(c):
     t, r, cc, ps, shape, neg = c
     ps = set(ps)
     n = r * cc
-    text = H + (PRE_STMTS if (r + cc + len(ps)) % 2 else "") + array_text(t, r, cc, ps, shape, neg) + "G(A) | 0\n"
+    text = H + ("int n0 = 4\nfloat x0 = 2.5\ncomplex z0 = 1-2j\n" if neg == "zeros" else "") + (PRE_STMTS if (r + cc + len(ps)) % 2 else "") + array_text(t, r, cc, ps, shape, neg) + "G(A) | 0\n"
     expect_ok = shape is None or tuple(shape) == (r, cc)
     p, e = _load(text)
     if e is not None:
@@ -104,7 +110,7 @@ def array_case(c):
                     if not (isinstance(got, sym.Expr) and got == sym.Symbol("u%d" % k)):
                         return ("C05/array-layout" + ("-2+params" if len(ps) > 1 else "-1param"), "%s[%d,%d] is %r, written {u%d}; array %r" % (what, i, j, got, k, M.tolist()))
                 else:
-                    want = PYN[t](k) if neg == "narrow" else (PYV[t](k) if not (neg and k % 2) else -PYV[t](k))
+                    want = (PYV[t](k) if k % 3 == 1 else PYV[t](0) * 0) if neg == "zeros" else PYN[t](k) if neg == "narrow" else (PYV[t](k) if not (neg and k % 2) else -PYV[t](k))
                     if observe.kind(got) != KIND[t] and not isinstance(got, sym.Expr):
                         return ("C05/array-element-kind", "%s[%d,%d] is %r (%s), declared %s" % (what, i, j, got, observe.kind(got), t))
                     if isinstance(got, sym.Expr) or not observe.veq(complex(got), complex(want), 0):
@@ -375,6 +381,10 @@ def build(ctx):
                     cases.append(("array", (t, r, c, ps, None, True)))
                 if len(ps) <= 2 and n <= 6:
                     cases.append(("array", (t, r, c, ps, None, "narrow")))
+                if len(ps) <= 2:
+                    cases.append(("array", (t, r, c, ps, None, "zeros")))
+                    if not ps:
+                        cases.append(("array", (t, r, c, ps, (r, c), "zeros")))
             for k in range(n):
                 for form in ("lit", "expr", "grp"):
                     cases.append(("index", (t, r, c, k, form)))
